@@ -90,7 +90,7 @@ fn add_small(wire: &[u8], be: bool, add: u64) -> Option<Vec<u8>> {
     Some(v)
 }
 
-pub const KINDS: [&str; 17] = [
+pub const KINDS: [&str; 18] = [
     "fault.mangle.bitflip",
     "fault.mangle.multi_bitflip",
     "fault.mangle.truncate",
@@ -108,6 +108,7 @@ pub const KINDS: [&str; 17] = [
     "fault.mangle.list_drop",
     "fault.mangle.splice_field",
     "fault.mangle.empty",
+    "fault.mangle.scalar_unused_top_bits",
 ];
 
 pub fn mangle(t: &mut Tape, rng: &mut SimRng, layout: &Layout, orig: &[u8], cx: &MangleCtx) -> Mangled {
@@ -115,7 +116,7 @@ pub fn mangle(t: &mut Tape, rng: &mut SimRng, layout: &Layout, orig: &[u8], cx: 
     let rl = layout.record_len();
     let nrec = if rl > 0 && orig.len() % rl == 0 { orig.len() / rl } else { 0 };
     // index 0 = single bit flip: the simplest corruption
-    let mut kind = t.weighted(&[6, 2, 3, 2, 2, 1, 3, 2, 3, 4, 5, 3, 2, 2, 2, 3, 1]);
+    let mut kind = t.weighted(&[6, 2, 3, 2, 2, 1, 3, 2, 3, 4, 5, 3, 2, 2, 2, 3, 1, 3]);
     for _attempt in 0..4 {
         let mut b = orig.to_vec();
         let mut must_fail = false;
@@ -322,6 +323,31 @@ pub fn mangle(t: &mut Tape, rng: &mut SimRng, layout: &Layout, orig: &[u8], cx: 
                     let f = fields[t.usize(fields.len())];
                     b[f.off..f.off + f.len].copy_from_slice(&o[f.off..f.off + f.len]);
                     true
+                }
+            }
+            17 => {
+                // set one of the bits a canonical scalar can never have: the top bits of the most significant
+                // byte (little-endian suites: the last byte, which for Ed448 is the all-zero padding byte)
+                let want_ident = t.chance(1, 3);
+                let f = match pick(t, if want_ident { FieldKind::Ident } else { FieldKind::Scalar }) {
+                    Some(f) => Some(f),
+                    None => pick(t, FieldKind::Ident),
+                };
+                match f {
+                    Some(f) if f.len > 0 => {
+                        let pos = if cx.scalar_be { f.off } else { f.off + f.len - 1 };
+                        let bit = 7 - t.usize(2) as u8; // bit 7 or 6
+                        if b[pos] & (1 << bit) != 0 {
+                            false
+                        } else {
+                            b[pos] |= 1 << bit;
+                            // little-endian suites: orders are < 2^253 (25519) / the 57th byte must be zero (448), so
+                            // this can never be canonical; SEC1 suites have orders close to 2^256, so it may be
+                            must_fail = !cx.scalar_be;
+                            true
+                        }
+                    }
+                    _ => false,
                 }
             }
             _ => {
